@@ -401,3 +401,109 @@ func sliceOfField(p *an.Prog, v ssa.Value, field string) (ok bool, via *ssa.Slic
 	ok = walk(v)
 	return ok, via
 }
+
+// loopBound describes a counted loop around `in`: the values whose difference is the trip count. Recognised forms:
+//
+//	for i := a; i < n; i++       (also the rotated `for range n`: i' = phi[-1, i'+1]; test i'+1 < n)   -> from a to n
+//	for r := n; r > m; r--                                                                            -> from m to n
+//
+// hi and lo are the SSA values (loop-invariant) such that the body runs hi - lo times when hi >= lo.
+func loopBound(p *an.Prog, in ssa.Instruction) (hi, lo ssa.Value, loConst int64, ok bool) {
+	for _, pb := range in.Block().Preds {
+		ifi, isIf := pb.Instrs[len(pb.Instrs)-1].(*ssa.If)
+		if !isIf {
+			continue
+		}
+		b, isB := stripNotV(ifi.Cond).(*ssa.BinOp)
+		if !isB {
+			continue
+		}
+		if hi, lo, loConst, ok = loopBoundOf(p, in, ifi, b); ok {
+			return
+		}
+	}
+	return nil, nil, 0, false
+}
+
+func loopBoundOf(p *an.Prog, in ssa.Instruction, ifi *ssa.If, b *ssa.BinOp) (hi, lo ssa.Value, loConst int64, ok bool) {
+	// counter side: a phi of {init, phi±1}, possibly seen through its own +1 (rotated form)
+	counter := func(v ssa.Value) (ph *ssa.Phi, step int64, adj int64, is bool) {
+		if bo, isB := v.(*ssa.BinOp); isB && (bo.Op == token.ADD || bo.Op == token.SUB) {
+			if c, isC := constInt(bo.Y); isC && c == 1 {
+				if p2, isP := bo.X.(*ssa.Phi); isP {
+					for _, e := range p2.Edges {
+						if e == v {
+							st := int64(1)
+							if bo.Op == token.SUB {
+								st = -1
+							}
+							return p2, st, st, true // the tested value is the already advanced counter
+						}
+					}
+				}
+			}
+		}
+		if p2, isP := v.(*ssa.Phi); isP && len(p2.Edges) == 2 {
+			for _, e := range p2.Edges {
+				if bo, isB := e.(*ssa.BinOp); isB && bo.X == ssa.Value(p2) {
+					if c, isC := constInt(bo.Y); isC && c == 1 {
+						if bo.Op == token.ADD {
+							return p2, 1, 0, true
+						}
+						if bo.Op == token.SUB {
+							return p2, -1, 0, true
+						}
+					}
+				}
+			}
+		}
+		return nil, 0, 0, false
+	}
+	try := func(cv, bound ssa.Value, op token.Token) bool {
+		ph, step, adj, is := counter(cv)
+		if !is {
+			return false
+		}
+		var init ssa.Value
+		for _, e := range ph.Edges {
+			if bo, isB := e.(*ssa.BinOp); isB && bo.X == ssa.Value(ph) {
+				continue
+			}
+			init = e
+		}
+		if init == nil {
+			return false
+		}
+		switch {
+		case step == 1 && op == token.LSS:
+			// runs while counter < bound, counter starts at init (+adj for the rotated form)
+			ic, isC := constInt(init)
+			if !isC {
+				return false
+			}
+			if ifi.Block() == ph.Block() && in.Block() == ph.Block() {
+				adj = 0 // rotated do-while form: the body has run before the advanced counter is tested
+			}
+			hi, loConst, ok = bound, ic+adj, true
+			return true
+		case step == -1 && op == token.GTR && adj == 0:
+			bc, isC := constInt(bound)
+			if !isC {
+				return false
+			}
+			hi, loConst, ok = init, bc, true
+			return true
+		}
+		return false
+	}
+	if op, other, is := cmpOf(b, func(v ssa.Value) bool { _, _, _, c := counter(v); return c }); is {
+		cv := b.X
+		if other == b.X {
+			cv = b.Y
+		}
+		if try(cv, other, op) {
+			return
+		}
+	}
+	return nil, nil, 0, false
+}
